@@ -2,8 +2,8 @@ package vsched
 
 import (
 	"fmt"
-	"os"
 	"math/bits"
+	"os"
 	"time"
 )
 
@@ -33,8 +33,12 @@ type Options struct {
 	MaxExecutions   int64
 	Deadline        time.Time
 	Watchdog        time.Duration
-	ExploreAll      bool // explored window open from the start
-	Trace           bool // keep a per-execution op log
+	// Slicing (ModePB only, where the search tree is static): the executions
+	// are partitioned by a hash of the first SliceDepth choices; this
+	// explorer continues only below prefixes with hash % SliceCount == SliceIndex.
+	SliceDepth, SliceIndex, SliceCount int
+	ExploreAll                         bool // explored window open from the start
+	Trace                              bool // keep a per-execution op log
 }
 
 type node struct {
@@ -76,15 +80,16 @@ type Stats struct {
 
 // Explorer enumerates executions of a scenario body.
 type Explorer struct {
-	opts     Options
-	dpor     bool
-	nodes    []node
-	pos      int
-	curSleep uint32
-	curPre   int16
-	curDev   int16
-	Stats    Stats
-	diverged string
+	opts         Options
+	dpor         bool
+	nodes        []node
+	pos          int
+	curSleep     uint32
+	curPre       int16
+	curDev       int16
+	Stats        Stats
+	diverged     string
+	sliceChecked bool
 }
 
 // NewExplorer creates an explorer.
@@ -120,6 +125,16 @@ func (ex *Explorer) choose(enabled uint32) int {
 			return cur
 		}
 		return lowest(enabled)
+	}
+	if ex.opts.SliceCount > 1 && ex.opts.Mode == ModePB && ex.pos >= ex.opts.SliceDepth && !ex.sliceChecked {
+		ex.sliceChecked = true
+		var h uint32 = 2166136261
+		for i := 0; i < ex.opts.SliceDepth && i < len(ex.nodes); i++ {
+			h = (h ^ uint32(ex.nodes[i].chosen+1)) * 16777619
+		}
+		if int(h%uint32(ex.opts.SliceCount)) != ex.opts.SliceIndex {
+			return -int(EndPruned)
+		}
 	}
 	var nd *node
 	if ex.pos < len(ex.nodes) {
@@ -387,6 +402,7 @@ func (ex *Explorer) Explore(body func(), check func(e *Execution) bool) *Stats {
 	for {
 		ex.curSleep, ex.curPre, ex.curDev = 0, 0, 0
 		ex.diverged = ""
+		ex.sliceChecked = false
 		e := ex.runOnce(body)
 		if ex.diverged != "" {
 			st.Divergences++
